@@ -97,6 +97,10 @@ def snapshot(root):
 def cases(tier, seed):
     for depth, emit, recursive, flt, dry in itertools.product((2, 3), EMITS if tier != "quick" else ("class", "function", "sqlalchemy"), (False, True), EXPOSED_FILTERS, (False, True)):
         yield dict(depth=depth, partial_all=False, emit=emit, recursive=recursive, filter=flt, dry_run=dry, out_exists=False, sqlalchemy_submodule=False)
+    # further options of the command: --target-module-name, --no-word-wrap, --extra-module
+    for depth, emit, recursive, dry, flags in itertools.product((1, 2), ("class", "function", "sqlalchemy") if tier == "quick" else EMITS, (False, True), (False, True),
+                                                               (["--target-module-name", "renamed_out"], ["--no-word-wrap"], ["--extra-module", "json"], ["--target-module-name", "renamed_out", "--no-word-wrap", "--extra-module", "json"])):
+        yield dict(depth=depth, partial_all=False, emit=emit, recursive=recursive, filter="none", dry_run=dry, out_exists=False, sqlalchemy_submodule=False, flags=flags)
     depths = (1, 2, 3)
     for depth, partial_all, emit, recursive, flt, dry, out_exists in itertools.product(depths, (False, True), EMITS, (False, True), FILTERS, (True, False), (False, True)):
         if flt == "blacklist_sub" and depth < 2:
@@ -150,6 +154,8 @@ def _run(case):
             argv.append("--dry-run")
         if case["sqlalchemy_submodule"]:
             argv.append("--emit-sqlalchemy-submodule")
+        if case.get("flags"):
+            argv += case["flags"]
         if case["filter"] == "blacklist_alpha":
             argv += ["--blacklist", PKG + ".alpha"]
         elif case["filter"] == "whitelist_alpha":
